@@ -25,6 +25,8 @@ Fixpoint slookup {A} (l : list (string * A)) (k : string) : option A :=
 (* facts of the source tree that decide clauses of the property; regenerated on every run (gen/Gen_netref.v) *)
 Record facts := { f_getattr_repeats : bool;    (* __getattr__ (Python's fallback after AttributeError) asks the peer again *)
                   f_ctxexit_delivers : bool;   (* the target's __exit__ learns the class of the exception raised in the with block *)
+                  f_ctxexit_base : bool;       (* ... also for classes outside Exception (KeyboardInterrupt, SystemExit, GeneratorExit): the
+                                                  handler's `raise` is guarded by `except BaseException` *)
                   f_reflects : bool }.         (* when the target's binary special method declines (NotImplemented) an operand that came by
                                                   value, the owner tries the operand's reflected method against the target itself *)
 
@@ -489,6 +491,10 @@ Definition listed_specials : list string :=
 (* special methods of the listed kinds that the default configuration refuses *)
 Definition unlisted_specials : list string := ["__matmul__"; "__rmatmul__"; "__imatmul__"; "__reversed__"; "__round__"; "__missing__"].
 
+(* the exception classes that derive from BaseException only (KeyboardInterrupt, SystemExit, GeneratorExit): in lib/Base's
+   enumeration of classes OtherError stands for them *)
+Definition base_only (e : exn) : bool := match e with OtherError => true | _ => false end.
+
 (* ================================================================== 3. worlds *)
 
 Fixpoint results_all {A} (l : list (result A)) : result (list A) :=
@@ -545,10 +551,19 @@ Section World.
     match r with Ok (VRef o) => if has_oid o slots then slots else (slots ++ [o])%list | _ => slots end.
 
   Definition first_truthy (l : list operand) : bool := match l with PImm v :: _ => truthy_imm v | _ => true end.
+  (* an __exit__ call for an exception outside Exception: on a tree whose handler guards its `raise` with `except Exception`
+     the exception escapes the handler -- the request fails with it and the target's __exit__ is never called *)
+  Definition escapes_handler (F : facts) (s : step) : option exn :=
+    match st_op s, st_operands s with
+    | OSpecial d _ _, PExc e :: _ => if String.eqb d "__exit__" && base_only e && negb (f_ctxexit_base F) then Some e else None
+    | _, _ => None
+    end.
+  Definition exit_class_ok (F : facts) (s : step) : bool := match escapes_handler F s with Some _ => false | None => true end.
   (* the operations the property speaks about, under configuration conf on a tree with facts F *)
   Definition step_ok (conf : pconf) (F : facts) (s : step) : bool :=
     forwarded (st_op s) && well_formed (st_op s) && permitted conf (direct_checks (st_op s))
-    && exit_ok F (first_truthy (st_operands s)) (st_op s).
+    && exit_ok F (first_truthy (st_operands s)) (st_op s)
+    && exit_class_ok F s.
 
   (* the rest of Python's binary-operator protocol, for a one-operand operator whose operand is a value: after the target's
      own method declined, the operand's reflected method is given the other operand; when that declines too, == and != fall
@@ -642,6 +657,9 @@ Section World.
     | Some o, Some vs =>
         match route (methods o) (st_op s) with
         | RSend rq _ =>
+          match escapes_handler F s with
+          | Some e => Some (Raise e, w)              (* nothing applied to the target *)
+          | None =>
             let '(r1, h1) := owner_serves (pw_heap w) (pw_exported w) o (rqmap (nth_val vs) rq) in
             let '(r2, h2) := match r1, fallback F (st_op s) with
                              | Raise AttributeError, Some rq2 => owner_serves h1 (pw_exported w) o (rqmap (nth_val vs) rq2)
@@ -654,6 +672,7 @@ Section World.
                      | None => reply r2
                      end in
             Some (r, {| pw_heap := h2; pw_exported := export (pw_exported w) r2; pw_slots := push_ref (pw_slots w) r |})
+          end
         | RNoMethod =>
             Some (Raise (no_method (st_op s)), w)
         | _ => None            (* answered by the proxy itself / outside the property *)
@@ -767,9 +786,9 @@ Definition run_proxyops (x : sx) : sx :=
         (* [op; [configuration; getattr repeats; ctxexit delivers; reflects]; synthesized methods of the proxy's class; operation;
             [is operand 0 true?; did operand 0 come by value?]] *)
         match sx_op a3, sx_l a1, sx_l a4 with
-        | Some p, [cf; f1; f2; f3], [t0; b0] =>
+        | Some p, [cf; f1; f2; f3; f4], [t0; b0] =>
             let c := conf_of (sx_z cf) in
-            let F := {| f_getattr_repeats := sx_bool f1; f_ctxexit_delivers := sx_bool f2; f_reflects := sx_bool f3 |} in
+            let F := {| f_getattr_repeats := sx_bool f1; f_ctxexit_delivers := sx_bool f2; f_ctxexit_base := sx_bool f4; f_reflects := sx_bool f3 |} in
             let truthy := fun _ : nat => sx_bool t0 in
             let byv := fun _ : nat => sx_bool b0 in
             let r := route (map sx_str (sx_l a2)) p in
